@@ -7,6 +7,7 @@ WAL = '{"wal"}'
 PARTS = "{0, 1, 2, 3}"
 CFGS = {
     "quick": [("c03-a", dict(WalSteps="TRUE", WalParts=PARTS, CrashAt=WAL, MaxStmts=3, MaxRows=3, MaxFlush=1, MaxCrash=1, Tables='{"t1"}'), None),
+              ("c03-big", dict(WalSteps="TRUE", WalParts=PARTS, CrashAt=WAL, MaxStmts=3, MaxRows=2, MaxFlush=1, MaxCrash=1, Tables='{"t1"}', Vals="{1, 8}", Wheres="{0, 8}"), None),
               ("c03-b", dict(WalSteps="TRUE", WalParts=PARTS, CrashAt=WAL, MaxStmts=4, MaxRows=2, MaxFlush=0, MaxCrash=1, Tables='{"t1"}', Vals="{1}"), None),
               # a flush between statements, then a statement cut in its log append (page LSNs on disk vs record LSNs)
               ("c03-d", dict(WalSteps="TRUE", WalParts=PARTS, CrashAt=WAL, MaxStmts=4, MaxRows=2, MaxFlush=1, MaxCrash=1, Tables='{"t1"}', Vals="{1}"), None),
